@@ -13,8 +13,10 @@ E14 = [
     (r"\d+x", False, True), (r"(\w+)@(\w+)", True, True), (r"x*yx*", False, True), (r"ö+", False, True),
     (r"\bab", False, False), (r"^ab", False, False), (r"ab$", False, False), (r"(?m)^a", False, False),
     (r"(a+)(b+)", True, True), (r"[^a]b", False, True),
+    # groups that an abandoned earlier attempt closes and the reported match does not enter (stale scratch slots)
+    (r"(a)?bc", True, True), (r"(?:(a)xy|b)", True, True), (r"(a)*c", True, True),
 ]
-QUICK = {r"a|ab", r"a*b", r"(a)(b)?", r"a.*?b", r"\bab", r"ab$"}
+QUICK = {r"a|ab", r"a*b", r"(a)(b)?", r"a.*?b", r"\bab", r"ab$", r"(a)?bc", r"(a)*c"}
 
 TINY = ["", "cap=1,clears=0", "det=1", "cap=64,clears=1", "cap=512,clears=6,det=2", "states=1"]
 
